@@ -136,6 +136,16 @@ def c03_cells(tier="quick"):
             cells.append((f"OrderedTaskGroup3.{mode}.{tag}", base(H3, mk(), constraints=[
                 {"id": "c", "kind": "OrderedTaskGroup", "tasks": ["t2", "t0", "t1"], "interval": [0, 4],
                  "mode": mode}])))
+        # a window strictly inside the horizon, every rotation of the member list (the optional / zero-duration
+        # member first, in the middle, last)
+        for rot, order in enumerate((["t2", "t0", "t1"], ["t0", "t2", "t1"], ["t0", "t1", "t2"])):
+            for mode in ("lax", "strict"):
+                cells.append((f"OrderedTaskGroup3.window.{mode}.r{rot}.{tag}", base(7, mk(), constraints=[
+                    {"id": "c", "kind": "OrderedTaskGroup", "tasks": order, "interval": [1, 6], "mode": mode}])))
+            cells.append((f"OrderedTaskGroup3.length.r{rot}.{tag}", base(7, mk(), constraints=[
+                {"id": "c", "kind": "OrderedTaskGroup", "tasks": order, "length": 5, "mode": "lax"}])))
+            cells.append((f"UnorderedTaskGroup3.window.r{rot}.{tag}", base(7, mk(), constraints=[
+                {"id": "c", "kind": "UnorderedTaskGroup", "tasks": order, "interval": [1, 6]}])))
         cells.append((f"UnorderedTaskGroup3.{tag}", base(H3, mk(), constraints=[
             {"id": "c", "kind": "UnorderedTaskGroup", "tasks": ["t0", "t1", "t2"], "length": 3}])))
         for mode in ("exact", "max"):
@@ -301,6 +311,12 @@ def c04_cells(tier="quick"):
                     H, mk(), workers=W[:1], requirements=on_w0(mk()), constraints=[
                         {"id": "c", "kind": "ResourceTasksDistance", "resource": "w0", "distance": 1,
                          "mode": mode, "intervals": [[0, 3]]}])))
+                # intervals whose lower bound is positive: a task may straddle it (start before, end inside)
+                for nm, ivs in (("lb2", [[2, H]]), ("two", [[1, 2], [3, H]])):
+                    cells.append((f"ResourceTasksDistance.{mode}.{tag}.iv_{nm}", base(
+                        H, mk(), workers=W[:1], requirements=on_w0(mk()), constraints=[
+                            {"id": "c", "kind": "ResourceTasksDistance", "resource": "w0", "distance": 1,
+                             "mode": mode, "intervals": ivs}])))
             cells.append((f"ResourceNonDelay.{tag}", base(H, mk(), workers=W[:1], requirements=on_w0(mk()),
                                                           constraints=[
                 {"id": "c", "kind": "ResourceNonDelay", "resource": "w0"}])))
@@ -413,6 +429,19 @@ def c09_cells(tier="quick"):
         {"id": "u0", "kind": "TaskUnloadBuffer", "task": "t0", "buffer": "b1", "quantity": 1},
         {"id": "l0", "kind": "TaskLoadBuffer", "task": "t0", "buffer": "b2", "quantity": 1},
         {"id": "u1", "kind": "TaskUnloadBuffer", "task": "t1", "buffer": "b2", "quantity": 1}])))
+    # equal quantities in the same direction (the array / function encodings cannot tell the two accesses apart),
+    # with and without an OPTIONAL accessing task next to them
+    for conc in (False, True):
+        ctag = "conc" if conc else "nonconc"
+        for otag, extra_t, extra_c in (("plain", [], []),
+                                       ("opt_loader", [fx("o", 1, optional=True)],
+                                        [{"id": "l2", "kind": "TaskLoadBuffer", "task": "o", "buffer": "bf", "quantity": 2}]),
+                                       ("opt_unloader", [vr("o", 1, 2, optional=True)],
+                                        [{"id": "u2", "kind": "TaskUnloadBuffer", "task": "o", "buffer": "bf", "quantity": 1}])):
+            cells.append((f"{ctag}.same_quantity.{otag}", base(3, [fx("t0", 1), fx("t1", 2)] + extra_t, buffers=[
+                {"name": "bf", "concurrent": conc, "initial": 3, "lower": 0}], constraints=[
+                {"id": "u0", "kind": "TaskUnloadBuffer", "task": "t0", "buffer": "bf", "quantity": 1},
+                {"id": "u1", "kind": "TaskUnloadBuffer", "task": "t1", "buffer": "bf", "quantity": 1}] + extra_c)))
     # several buffers of the same kind in one problem, accessed at coinciding instants with different quantities
     for c1, c2 in ((False, False), (True, True), (False, True)):
         tag = f"{'c' if c1 else 'n'}{'c' if c2 else 'n'}"
